@@ -14,6 +14,21 @@ import (
 
 var collidePool = refformat.CollidingNames("k", 6)
 
+// longCollidePool: long names (each fills most of a quarter page) that hash to
+// the same bucket as collidePool: chains that run across several pages, so that
+// a process with a stale mapping has to follow a chain beyond it.
+var longCollidePool = func() []string {
+	want := refformat.Hash(collidePool[0])
+	var out []string
+	for i := 0; len(out) < 14 && i < 1<<17; i++ {
+		n := longName(fmt.Sprintf("LC%d/", i), 3600+(i%7)*50)
+		if refformat.Hash(n) == want {
+			out = append(out, n)
+		}
+	}
+	return out
+}()
+
 // namePool draws a pool of counter names containing same-bucket (colliding)
 // names, ordinary names, long names that make records cross pages, and names
 // sized so that a record ends exactly at the reserved tail of a page.
@@ -140,13 +155,21 @@ func scenarioC04(c *hlib.RunCtx) *hlib.Violation {
 			Main: debug.Module{Path: "example.com/prog", Version: "v1.2.3"}}
 	}
 	nprocs := 2 + t.Draw(3)
+	longChain := false
 	pool := namePool(t, 2+t.Draw(6), false)
 	// In a third of the runs enough long names to fill the first page, so that
 	// the processes extend the file and re-map after each other's growth.
-	if t.Bool(1, 3) {
+	switch t.Draw(4) {
+	case 1:
 		for i := 0; i < 4; i++ {
 			pool = append(pool, longName(fmt.Sprintf("F%d/", i), 3500+t.Draw(500)))
 		}
+	case 2:
+		// one long hash chain growing over three or more pages
+		pool = append(pool[:0:0], collidePool[:1+t.Draw(2)]...)
+		pool = append(pool, longCollidePool[:8+t.Draw(len(longCollidePool)-7)]...)
+		longChain = true
+		s.Probe("long-colliding-pool")
 	}
 	maxOps := 5
 	if thorough {
@@ -166,6 +189,9 @@ func scenarioC04(c *hlib.RunCtx) *hlib.Violation {
 		for j := 0; j < nth; j++ {
 			var ops []op
 			n := 1 + t.Draw(maxOps)
+			if longChain {
+				n += 3 // enough distinct long names to reach a third page
+			}
 			for k := 0; k < n; k++ {
 				ops = append(ops, op{idx: t.Draw(len(pool)), n: int64(1 + t.Draw(4))})
 			}
@@ -218,6 +244,11 @@ func scenarioC04(c *hlib.RunCtx) *hlib.Violation {
 		s.MaxSteps = 300000
 	}
 	w.finishRun(200000)
+	for _, v := range w.views {
+		if len(v.last) >= 3*refformat.PageSize {
+			s.Probe("file-of-three-pages")
+		}
+	}
 	if w.viol == nil {
 		w.checkSurvivors()
 	}
